@@ -58,7 +58,7 @@ func runC20Late(w *core.WorkerCtx, k int) *core.CaseResult {
 	}))
 	defer srv.Close()
 	addr := srv.Listener.Addr().(*net.TCPAddr).String()
-	cfg := fmt.Sprintf("global:\n  scrape_interval: 15s\n  scrape_timeout: 10s\nscrape_configs:\n- job_name: plain\n- job_name: late\n  tls_config:\n    ca_file: %s\n", ca)
+	cfg := fmt.Sprintf("global:\n  scrape_interval: 300s\n  scrape_timeout: 120s\nscrape_configs:\n- job_name: plain\n- job_name: late\n  tls_config:\n    ca_file: %s\n", ca)
 	p := newPipeline(1 + r.Intn(8))
 	defer p.close()
 	if err := p.cm.ReloadFromRaw([]byte(cfg)); err != nil {
@@ -162,7 +162,7 @@ func runC20Reload(w *core.WorkerCtx, k int) *core.CaseResult {
 	defer srv.Close()
 	addr := srv.Listener.Addr().(*net.TCPAddr).String()
 	cfg := func(module, dropRe string) string {
-		return fmt.Sprintf("global:\n  scrape_interval: 15s\n  scrape_timeout: 10s\nscrape_configs:\n- job_name: jr\n  params:\n    module: [%s]\n  metric_relabel_configs:\n  - source_labels: [__name__]\n    regex: %s\n    action: drop\n", module, dropRe)
+		return fmt.Sprintf("global:\n  scrape_interval: 300s\n  scrape_timeout: 120s\nscrape_configs:\n- job_name: jr\n  params:\n    module: [%s]\n  metric_relabel_configs:\n  - source_labels: [__name__]\n    regex: %s\n    action: drop\n", module, dropRe)
 	}
 	p := newPipeline(1 + r.Intn(4))
 	defer p.close()
@@ -263,7 +263,7 @@ func runC20Params(w *core.WorkerCtx, k int) *core.CaseResult {
 	addr := srv.Listener.Addr().(*net.TCPAddr).String()
 	// (a __param_ label that comes straight from discovery is overwritten by the configured value in Prometheus
 	// itself; only relabeling overrides a configured param - blackbox-exporter style)
-	cfg := "global:\n  scrape_interval: 15s\n  scrape_timeout: 10s\nscrape_configs:\n- job_name: jp\n  params:\n    module: [small]\n    'collect[]': [cpu, mem, disk]\n  relabel_configs:\n  - source_labels: [mod]\n    regex: (.+)\n    target_label: __param_module\n"
+	cfg := "global:\n  scrape_interval: 300s\n  scrape_timeout: 120s\nscrape_configs:\n- job_name: jp\n  params:\n    module: [small]\n    'collect[]': [cpu, mem, disk]\n  relabel_configs:\n  - source_labels: [mod]\n    regex: (.+)\n    target_label: __param_module\n"
 	p := newPipeline(1)
 	defer p.close()
 	if err := p.cm.ReloadFromRaw([]byte(cfg)); err != nil {
